@@ -4,6 +4,7 @@ import (
 	"fmt"
 	"os"
 	"sync"
+	"sync/atomic"
 )
 
 // QuietLogger implements sts.Logger; it keeps the last messages in memory
@@ -13,7 +14,11 @@ type QuietLogger struct {
 	recent []string
 }
 
+// Count is the number of Info/Error messages seen (diagnostics).
+var Count int64
+
 func (l *QuietLogger) add(level string, p []interface{}) {
+	atomic.AddInt64(&Count, 1)
 	s := level + " " + fmt.Sprintln(p...)
 	l.mu.Lock()
 	l.recent = append(l.recent, s)
